@@ -36,7 +36,38 @@ type MSub struct {
 	Mask []string `json:"mask"` // nil = no read mask
 	BP   bool     `json:"bp,omitempty"`
 	Late int      `json:"late,omitempty"` // subscribes after this many writes
+	// Incl: WithInclude with a function of the closed family shared with the driver ("" = none): "a" level even,
+	// "b" target even, "c" level >= 5, "d" id even and target < 5 (Collection only). The function reads the STORED item.
+	Incl string `json:"incl,omitempty"`
 }
+
+// included: the include functions, written on plain pairs (independent of the repository's include / filter code)
+func included(name string, id int, p pair) bool {
+	switch name {
+	case "a":
+		return p.L%2 == 0
+	case "b":
+		return p.T%2 == 0
+	case "c":
+		return p.L >= 5
+	case "d":
+		return id%2 == 0 && p.T < 5
+	}
+	return true
+}
+
+func includeFunc(name string) resource.FilterFunc {
+	return func(id string, m proto.Message) bool {
+		if id == "zz" { // the harness's own marker item is visible to everybody
+			return true
+		}
+		n, _ := strconv.Atoi(strings.TrimPrefix(id, "i"))
+		p, ok := pairOf(m)
+		return ok && included(name, n, p)
+	}
+}
+
+func includeOption(name string) resource.ReadOption { return resource.WithInclude(includeFunc(name)) }
 
 type MaskScenario struct {
 	Res  string         `json:"res"`
@@ -144,6 +175,9 @@ func runMasks(sc MaskScenario) (*verdict, *maskResult) {
 		if s.Mask != nil {
 			opts = append(opts, resource.WithReadPaths(&traits.Brightness{}, s.Mask...))
 		}
+		if s.Incl != "" && sc.Res != "value" {
+			opts = append(opts, includeOption(s.Incl))
+		}
 		if sc.Res == "value" {
 			ch := val.Pull(ctx, opts...)
 			go func() {
@@ -220,10 +254,19 @@ func runMasks(sc MaskScenario) (*verdict, *maskResult) {
 	if sc.Res == "coll" {
 		coll.Update("zz", bright(-1, -1), resource.WithCreateIfAbsent())
 	}
+	site := "masks-single-writer"
+	for _, s := range sc.Subs {
+		if s.Incl != "" && sc.Res != "value" {
+			site = "include-masks-single-writer"
+		}
+	}
 	for i, c := range cons {
 		want := map[string]pair{}
 		for id, p := range contents {
-			want[id] = project(p, sc.Subs[i].Mask)
+			n, _ := strconv.Atoi(id)
+			if sc.Res == "value" || included(sc.Subs[i].Incl, n, p) {
+				want[id] = project(p, sc.Subs[i].Mask)
+			}
 		}
 		ok := false
 		if sc.Res == "coll" {
@@ -231,7 +274,7 @@ func runMasks(sc MaskScenario) (*verdict, *maskResult) {
 			case <-c.marker:
 			case <-time.After(limit):
 				maskFailures++
-				return &verdict{"C03/coll/masks-single-writer/sentinel-not-delivered", fmt.Sprintf("subscriber %d (%+v) never received the sentinel", i, sc.Subs[i]), "sentinel", "none"}, nil
+				return &verdict{"C03/coll/" + site + "/sentinel-not-delivered", fmt.Sprintf("subscriber %d (%+v) never received the sentinel", i, sc.Subs[i]), "sentinel", "none"}, nil
 			}
 			c.mu.Lock()
 			ok = showPairs(c.view) == showPairs(want)
@@ -254,9 +297,46 @@ func runMasks(sc MaskScenario) (*verdict, *maskResult) {
 			maskFailures++
 			c.mu.Lock()
 			defer c.mu.Unlock()
-			return &verdict{fmt.Sprintf("C03/%s/masks-single-writer/stale-view", sc.Res),
-				fmt.Sprintf("single writer, %d subscribers with different read masks: subscriber %d (%+v) ends with a view that is not the projection of Get/List under its own mask", len(sc.Subs), i, sc.Subs[i]),
+			return &verdict{fmt.Sprintf("C03/%s/%s/stale-view", sc.Res, site),
+				fmt.Sprintf("single writer, %d subscribers with different read masks / include functions: subscriber %d (%+v) ends with a view that is not the projection under its own mask of the items of Get/List its include function accepts", len(sc.Subs), i, sc.Subs[i]),
 				"view = " + showPairs(want), "view = " + showPairs(c.view) + " from events " + strings.Join(c.events, ";")}, nil
+		}
+		if sc.Res == "coll" {
+			// "exactly what List returns": the real List with the subscriber's own options (items sorted by id, the
+			// marker item last) against the view
+			lopts := []resource.ReadOption{}
+			if sc.Subs[i].Mask != nil {
+				lopts = append(lopts, resource.WithReadPaths(&traits.Brightness{}, sc.Subs[i].Mask...))
+			}
+			if sc.Subs[i].Incl != "" {
+				lopts = append(lopts, includeOption(sc.Subs[i].Incl))
+			}
+			var listed []string
+			for _, m := range coll.List(lopts...) {
+				p, _ := pairOf(m)
+				listed = append(listed, fmt.Sprintf("{%d,%d}", p.L, p.T))
+			}
+			if len(listed) > 0 {
+				listed = listed[:len(listed)-1] // the marker
+			}
+			c.mu.Lock()
+			var ids []string
+			for id := range c.view {
+				ids = append(ids, id)
+			}
+			sort.Strings(ids)
+			var viewed []string
+			for _, id := range ids {
+				viewed = append(viewed, fmt.Sprintf("{%d,%d}", c.view[id].L, c.view[id].T))
+			}
+			evs := strings.Join(c.events, ";")
+			c.mu.Unlock()
+			if strings.Join(listed, ",") != strings.Join(viewed, ",") {
+				maskFailures++
+				return &verdict{fmt.Sprintf("C03/coll/%s/view-differs-from-List", site),
+					fmt.Sprintf("subscriber %d (%+v): the folded view is not what List returns with the same read mask and include function", i, sc.Subs[i]),
+					"items " + strings.Join(listed, ","), "items " + strings.Join(viewed, ",") + " from events " + evs}, nil
+			}
 		}
 	}
 	mr := &maskResult{contents: contents}
@@ -326,7 +406,11 @@ func (sc MaskScenario) driverLine() string {
 	}
 	var subs []string
 	for _, s := range sc.Subs {
-		subs = append(subs, "0"+b01(!s.BP)+maskLetter(s.Mask))
+		incl := "n"
+		if s.Incl != "" && sc.Res != "value" {
+			incl = s.Incl
+		}
+		subs = append(subs, "0"+b01(!s.BP)+maskLetter(s.Mask)+incl)
 	}
 	var sched []string
 	done := make([]bool, len(sc.Subs))
@@ -401,6 +485,30 @@ func maskWitnesses() []MaskScenario {
 	return out
 }
 
+var inclChoices = []string{"", "a", "b", "c", "d"}
+
+// includeMaskWitnesses: every (read mask, include function) pair on a Collection, backpressured and lossy, next to an
+// unmasked subscriber with the same include function: items enter the included set by ADD and by UPDATE, are updated
+// inside it, leave it by UPDATE and by REMOVE, and are written while outside it — for each function of the family,
+// whichever field the mask hides.
+func includeMaskWitnesses() []MaskScenario {
+	ops := []MOp{
+		{K: "s", ID: 0, L: 2, T: 2}, {K: "s", ID: 1, L: 3, T: 7}, {K: "s", ID: 0, L: 4, T: 4}, {K: "s", ID: 0, L: 7, T: 1},
+		{K: "s", ID: 1, L: 6, T: 8}, {K: "s", ID: 2, L: 8, T: 0}, {K: "s", ID: 0, L: 9, T: 3}, {K: "s", ID: 1, L: 1, T: 9},
+		{K: "d", ID: 2}, {K: "s", ID: 0, L: 6, T: 6}, {K: "s", ID: 2, L: 5, T: 4}, {K: "s", ID: 1, L: 8, T: 2}, {K: "d", ID: 0},
+	}
+	var out []MaskScenario
+	for _, bp := range []bool{true, false} {
+		for _, incl := range inclChoices[1:] {
+			for _, mask := range maskChoices {
+				out = append(out, MaskScenario{Res: "coll", Init: map[string]int{"0": 1, "2": 4}, Ops: ops,
+					Subs: []MSub{{Mask: mask, BP: bp, Incl: incl}, {Mask: nil, BP: bp, Incl: incl}, {Mask: mask, BP: bp, Incl: incl, Late: 5}}})
+			}
+		}
+	}
+	return out
+}
+
 func genMasks(rng *rand.Rand) MaskScenario {
 	sc := MaskScenario{Res: "coll", Init: map[string]int{}}
 	if rng.Intn(3) == 0 {
@@ -424,9 +532,18 @@ func genMasks(rng *rand.Rand) MaskScenario {
 			sc.Ops = append(sc.Ops, MOp{K: "s", ID: id, L: 20 + 4*i, T: 21 + 4*i})
 		}
 	}
+	withIncl := sc.Res == "coll" && rng.Intn(2) == 0
+	if withIncl { // small values of either parity, so that items move into and out of the included sets
+		for i := range sc.Ops {
+			sc.Ops[i].L, sc.Ops[i].T = rng.Intn(10), rng.Intn(10)
+		}
+	}
 	ns := 2 + rng.Intn(2)
 	for i := 0; i < ns; i++ {
 		s := MSub{Mask: maskChoices[rng.Intn(len(maskChoices))], BP: rng.Intn(2) == 0}
+		if withIncl {
+			s.Incl = inclChoices[rng.Intn(len(inclChoices))]
+		}
 		if rng.Intn(3) == 0 {
 			s.Late = rng.Intn(n + 1)
 		}
@@ -438,7 +555,7 @@ func genMasks(rng *rand.Rand) MaskScenario {
 func masksMonitor(f lib.Flags, res *lib.Result, rng *rand.Rand) {
 	mon := res.Monitor("converges-read-masks",
 		"single writer, 2-3 concurrent subscribers of one Value / Collection of two-field messages with DIFFERENT read masks (none, each field, both), backpressure on/off, subscribing before or between writes; each subscriber's folded view at quiescence vs the projection of Get/List under its OWN mask (projection computed independently); all ordered pairs of distinct masks x {Value, Collection} x {backpressure, lossy} + random; deterministic, so any difference is a violation")
-	all := maskWitnesses()
+	all := append(maskWitnesses(), includeMaskWitnesses()...)
 	for i := 0; i < f.N(200, 3000); i++ {
 		all = append(all, genMasks(rng))
 	}
